@@ -93,13 +93,61 @@ func scribble(v zygo.Sexp) bool {
 var cmpOps = [][2]string{{"lt", "<"}, {"gt", ">"}, {"le", "<="}, {"ge", ">="}, {"eq", "=="}, {"ne", "!="}}
 var arOps = [][2]string{{"add", "+"}, {"sub", "-"}, {"mul", "*"}, {"div", "/"}}
 
+// integer-only builtins (numerictower.go IntegerDo): shifts and bit operations
+var intOps = [][2]string{{"sll", "sll"}, {"sra", "sra"}, {"srl", "srl"}, {"band", "bitAnd"}, {"bor", "bitOr"}, {"bxor", "bitXor"}}
+
+// shift counts and bit masks around the word size, in every integer kind (added to the grid for the integer-only builtins)
+func counts() []val {
+	var vs []val
+	for _, i := range []int64{31, 32, 33, 62, 63, 64, 65, 127, 128, -63, -64, -65, 0x5555555555555555, -0x5555555555555556} {
+		vs = append(vs, val{kind: 'I', i: i})
+	}
+	for _, u := range []uint64{31, 32, 62, 63, 64, 65, 128, 0xAAAAAAAAAAAAAAAA} {
+		vs = append(vs, val{kind: 'U', u: u})
+	}
+	for _, c := range []int64{31, 63, 64, 65, -64} {
+		vs = append(vs, val{kind: 'C', i: c})
+	}
+	return vs
+}
+
+// related derives a second operand from x that lies next to x across the int/float boundary:
+// the float64 nearest to an integer and its two neighbours, or the integers around a float
+func related(r *lib.Rng, x val) val {
+	switch x.kind {
+	case 'I', 'C', 'U':
+		var f float64
+		if x.kind == 'U' {
+			f = float64(x.u)
+		} else {
+			f = float64(x.i)
+		}
+		switch r.Intn(3) {
+		case 0:
+			f = math.Nextafter(f, math.Inf(1))
+		case 1:
+			f = math.Nextafter(f, math.Inf(-1))
+		}
+		return val{kind: 'F', f: f}
+	}
+	f := x.f
+	if f >= -9.2e18 && f <= 9.2e18 {
+		return val{kind: 'I', i: int64(f) + int64(r.Intn(3)) - 1}
+	}
+	if f > 0 && f < 1.8e19 {
+		return val{kind: 'U', u: uint64(f) + uint64(r.Intn(3)) - 1}
+	}
+	return val{kind: 'I', i: int64(r.U64())}
+}
+
 func grid() []val {
 	var vs []val
 	for _, i := range []int64{math.MinInt64, math.MinInt64 + 1, -(1 << 53) - 1, -(1 << 53), -(1 << 53) + 1, -(1 << 31), -2, -1, 0, 1, 2, 3, 97,
-		1 << 31, (1 << 53) - 1, 1 << 53, (1 << 53) + 1, 1 << 62, math.MaxInt64 - 1, math.MaxInt64} {
+		1 << 31, (1 << 53) - 1, 1 << 53, (1 << 53) + 1, (1 << 53) + 2, (1 << 53) + 3, 1 << 62, math.MaxInt64 - 1024, math.MaxInt64 - 1023, math.MaxInt64 - 512, math.MaxInt64 - 511, math.MaxInt64 - 1, math.MaxInt64,
+		math.MinInt64 + 512, math.MinInt64 + 513, math.MinInt64 + 1025} {
 		vs = append(vs, val{kind: 'I', i: i})
 	}
-	for _, u := range []uint64{0, 1, 2, 3, 97, (1 << 53) - 1, 1 << 53, (1 << 53) + 1, (1 << 63) - 1, 1 << 63, (1 << 63) + 1, math.MaxUint64 - 1, math.MaxUint64} {
+	for _, u := range []uint64{0, 1, 2, 3, 97, (1 << 53) - 1, 1 << 53, (1 << 53) + 1, (1 << 63) - 1, 1 << 63, (1 << 63) + 1, math.MaxUint64 - 2048, math.MaxUint64 - 1024, math.MaxUint64 - 1023, math.MaxUint64 - 1, math.MaxUint64} {
 		vs = append(vs, val{kind: 'U', u: u})
 	}
 	for _, c := range []int64{0, 1, 2, 97, 0x10FFFF, math.MaxInt32, math.MinInt32, -1} {
@@ -108,7 +156,7 @@ func grid() []val {
 	for _, f := range []float64{0, math.Copysign(0, -1), 1, -1, 2, 3, 0.5, 1.5, -1.5, 97, math.Inf(1), math.Inf(-1), math.NaN(),
 		math.SmallestNonzeroFloat64, -math.SmallestNonzeroFloat64, math.Float64frombits(0x000FFFFFFFFFFFFF), math.Float64frombits(0x0010000000000000),
 		math.MaxFloat64, -math.MaxFloat64, 1 << 53, (1 << 53) + 2, -(1 << 53), 9007199254740993, 1 << 63, -(1 << 63), 18446744073709551616.0,
-		math.Nextafter(1<<63, 0), math.Nextafter(1<<63, math.Inf(1)), 1e308, 2147483648, 1114111} {
+		math.Nextafter(1<<63, 0), math.Nextafter(1<<63, math.Inf(1)), math.Nextafter(-(1<<63), 0), math.Nextafter(-(1<<63), math.Inf(-1)), math.Nextafter(18446744073709551616.0, 0), 9007199254740994, 1e308, 2147483648, 1114111} {
 		vs = append(vs, val{kind: 'F', f: f})
 	}
 	return vs
@@ -143,7 +191,7 @@ func randVal(r *lib.Rng) val {
 func main() {
 	a := lib.ParseArgs()
 	out := lib.NewOut(a.Out)
-	out.Rule = "boundary grid: all ordered pairs x 6 comparison + 4 arithmetic operators + mod (exhaustive), then random 64-bit patterns biased to powers of two and small magnitudes; a case is non-trivial when the two operands differ or are of different kinds; distinct = distinct (op,a,b) inputs"
+	out.Rule = "boundary grid: all ordered pairs x 6 comparison + 4 arithmetic operators + mod (exhaustive); the grid plus shift counts/masks around the word size x 6 integer-only builtins (sll sra srl bitAnd bitOr bitXor) and bitNot (exhaustive); then random 64-bit patterns biased to powers of two and small magnitudes, 1 in 5 pairs being neighbours across the int/float boundary (float64(i) and its adjacent floats, int64(f)+-1); a case is non-trivial when the two operands differ or are of different kinds; distinct = distinct (op,a,b) inputs"
 	env := zygo.NewZlisp()
 	env.StandardSetup()
 	overwritten := 0
@@ -175,9 +223,19 @@ func main() {
 			out.Case(input, render(r2), false, kind+":"+opname, "same-object")
 		}
 	}
+	// (bitNot a): functions.go ComplementFunction; the operand is read back afterwards
+	runNot := func(x val) {
+		env.AddGlobal("a", x.sexp())
+		r := lib.Eval(env, "(bitNot a)", 100000)
+		obs := render(r)
+		if back := render(lib.Eval(env, "a", 1000)); back != x.key() && !(x.kind == 'F' && math.IsNaN(x.f) && back == "Fnan") {
+			obs += ";OPERAND-CHANGED:a=" + back
+		}
+		out.Case("bnot bnot "+x.key(), obs, true, "bnot:bnot", "types:"+string(x.kind))
+	}
 	// n-ary folds: (op a b c) and (op a b c d); the operands are read back afterwards and must be unchanged
 	runFold := func(opname, opsym string, vs []val) {
-		names := []string{"a", "b", "c", "d"}
+		names := []string{"a", "b", "c", "d", "e", "f"}
 		src := "(" + opsym
 		input := "fold " + opname
 		for i, v := range vs {
@@ -217,9 +275,22 @@ func main() {
 		for k := 0; k < nf; k++ {
 			op := arOps[frng.Intn(len(arOps))]
 			n := 3 + frng.Intn(2)
+			same := byte(0)
+			if frng.Intn(4) == 0 {
+				// one kind throughout (int64 or uint64), 1..6 operands: the exact-fold oracle applies
+				n = 1 + frng.Intn(6)
+				same = "IU"[frng.Intn(2)]
+			}
 			vs := make([]val, n)
 			for i := range vs {
-				if frng.Intn(3) == 0 {
+				if same != 0 {
+					v := randVal(frng)
+					if same == 'I' {
+						vs[i] = val{kind: 'I', i: int64(math.Float64bits(v.f)) ^ v.i ^ int64(v.u)}
+					} else {
+						vs[i] = val{kind: 'U', u: math.Float64bits(v.f) ^ uint64(v.i) ^ v.u}
+					}
+				} else if frng.Intn(3) == 0 {
 					vs[i] = small[frng.Intn(len(small))]
 				} else {
 					vs[i] = randVal(frng)
@@ -238,6 +309,17 @@ func main() {
 				run("mod", "mod", "mod", x, y)
 			}
 		}
+		// integer-only builtins: every grid value against the grid plus shift counts / masks around the word size
+		g2 := append(append([]val{}, g...), counts()...)
+		for _, x := range g2 {
+			runNot(x)
+			for _, y := range g2 {
+				for _, op := range intOps {
+					run("int", op[0], op[1], x, y)
+				}
+			}
+		}
+		out.Extra["int_grid_values"] = len(g2)
 		out.Extra["results_overwritten_in_place_then_recomputed"] = overwritten
 		out.Extra["grid_values"] = len(g)
 		out.Extra["grid_exhaustive"] = true
@@ -250,8 +332,31 @@ func main() {
 			x, y := randVal(rng), randVal(rng)
 			if rng.Intn(8) == 0 {
 				y = x
+			} else if rng.Intn(5) == 0 {
+				y = related(rng, x) // neighbours across the int/float boundary, every magnitude
+				if rng.Intn(2) == 0 {
+					x, y = y, x
+				}
 			}
-			if rng.Intn(9) == 0 {
+			if rng.Intn(6) == 0 {
+				// integer-only builtins; half of the time with a count near the word size
+				if rng.Intn(2) == 0 {
+					c := int64(rng.Intn(140)) - 70
+					switch rng.Intn(3) {
+					case 0:
+						y = val{kind: 'I', i: c}
+					case 1:
+						y = val{kind: 'U', u: uint64(c)}
+					default:
+						y = val{kind: 'C', i: c}
+					}
+				}
+				if rng.Intn(12) == 0 {
+					runNot(x)
+				}
+				op := intOps[rng.Intn(len(intOps))]
+				run("int", op[0], op[1], x, y)
+			} else if rng.Intn(9) == 0 {
 				run("mod", "mod", "mod", x, y)
 			} else if rng.Intn(3) == 0 {
 				op := arOps[rng.Intn(len(arOps))]
